@@ -214,6 +214,19 @@ def failing_snippets(rng):
     out.append(snip(["def gen():", "    yield 1", "g = gen()", "next(g)", "next(g)"], 4, "StopIteration",
                     dict(exc=True), shape="c:stopiteration"))
     out.append(snip(["assert 1 == 2, 'math is broken'"], 0, "AssertionError", dict(exc=True), shape="assert"))
+    # the captured standard output closed / crippled by the student before the failure
+    out.append(snip(["import sys", "sys.stdout.close()", "v = 1 / 0"], 2, "ZeroDivisionError", dict(exc=True),
+                    shape="stdout-closed-then-fail"))
+    out.append(snip(["import sys", "print('before')", "sys.stdout.close()", "print('after')"], 3, "ValueError",
+                    dict(exc=True), shape="print-after-close"))
+    out.append(snip(["import sys, io", "old = sys.stdout", "sys.stdout = io.StringIO()", "old.close()",
+                     "v = undefined_name"], 4, "NameError", dict(exc=True), shape="stdout-replaced-and-closed-then-fail"))
+    out.append(snip(["import sys", "sys.stdout.getvalue = lambda: 1 / 0", "v = int('a')"], 2, "ValueError",
+                    dict(exc=True), shape="stdout-getvalue-replaced-then-fail"))
+    out.append(snip(["import sys", "sys.stdout.close()", "raise SystemExit(2)"], 2, "SystemExit",
+                    dict(exc=False, sysexit=True), shape="stdout-closed-then-systemexit"))
+    out.append(snip(["import sys", "sys.stdout.close()", "raise KeyboardInterrupt"], 2, "KeyboardInterrupt",
+                    dict(exc=False), shape="stdout-closed-then-keyboardinterrupt"))
     # inside called functions
     out.append(snip(["def inner():", "    return [][1]", "def outer():", "    return inner()", "outer()"], 4,
                     "IndexError", dict(exc=True), inner=[3, 1], shape="nested-functions"))
@@ -252,6 +265,23 @@ NORMAL_PROGRAMS = [
     "import sys\nsys.settrace(lambda *a: None)\nx = 1\n",
     "import sys\nsys.settrace(None)\nx = 2\n",
     "import sys\ndef tr(frame, event, arg):\n    return tr\nsys.settrace(tr)\ndef f():\n    return 7\nprint(f())\n",
+    # student code that closes / cripples the standard output it was given (pedal reads it back afterwards)
+    "import sys\nsys.stdout.close()\n",
+    "import sys\nprint('before')\nsys.stdout.close()\n",
+    "import sys, io\nold = sys.stdout\nsys.stdout = io.StringIO()\nold.close()\n",       # replace, then close
+    "import sys\nsys.stdout.close()\ntry:\n    print('after')\nexcept ValueError:\n    pass\n",
+    "import sys\nsys.stdout.getvalue = None\n",
+    "import sys\nprint('x')\nsys.stdout.getvalue = lambda: 5\n",
+    "import sys\nsys.stdout.getvalue = lambda: 1 / 0\n",
+    "import sys\nsys.stdout.truncate(0)\nsys.stdout.seek(0)\nsys.stdout.detach = None\n",
+]
+
+# functions for a successful call() / evaluate(): the plain one, and ones that leave the captured stdout unusable
+OK_FUNCTIONS = [
+    "def f(*args, **kwargs):\n    return 7\n",
+    "def f(*args, **kwargs):\n    return 7\n",
+    "def f(*args, **kwargs):\n    import sys\n    sys.stdout.close()\n    return 7\n",
+    "def f(*args, **kwargs):\n    import sys\n    print('in f')\n    sys.stdout.getvalue = None\n    return 7\n",
 ]
 
 COMPILE_FAILURES = [
@@ -390,7 +420,7 @@ def gen_history(rng, snippets, *, max_ops=6, inject_rate=0.06, styles=STYLES, si
         elif r < 0.40:
             # a successful call / evaluate
             ops.append({"entry": "run", "style": rng.choice(STYLES[:3]), "inject": False,
-                        "code": "def f(*args, **kwargs):\n    return 7\n", "term": ["N"], "shape": "defs"})
+                        "code": rng.choice(OK_FUNCTIONS), "term": ["N"], "shape": "defs"})
             e = rng.choice(["call", "eval"])
             op = {"entry": e, "style": style, "inject": inject, "term": ["N"], "shape": "ok-" + e}
             if e == "eval":
@@ -519,7 +549,8 @@ def coverage_histories(rng, per_snippet_entries=("run", "call", "eval")):
         k += 1
         hists.append([{"entry": "eval", "style": style, "inject": False, "expr": expr, "term": d, "shape": shape}])
     kb = [s for s in snippets if s["shape"] in ("builtin:KeyboardInterrupt", "builtin:GeneratorExit",
-                                                "user:BaseException", "builtin:ValueError", "sys.exit")]
+                                                "user:BaseException", "builtin:ValueError", "sys.exit",
+                                                "stdout-closed-then-fail", "stdout-closed-then-keyboardinterrupt")]
     for style in STYLES:
         for sn in kb:
             for entry in ("run", "call"):
@@ -531,6 +562,15 @@ def coverage_histories(rng, per_snippet_entries=("run", "call", "eval")):
         hists.append([{"entry": "run", "style": style, "inject": False, "code": "print('fine')\n", "term": ["N"],
                        "shape": "normal"}])
     hists.append([{"entry": "callmissing", "style": "none", "inject": False, "term": ["N"], "shape": "call-missing"}])
+    for code in OK_FUNCTIONS[1:]:
+        for e in ("call", "eval"):
+            style = STYLES[k % len(STYLES)]
+            k += 1
+            op = {"entry": e, "style": style, "inject": False, "term": ["N"], "shape": "ok-" + e, "pin": True}
+            if e == "eval":
+                op["expr"] = "f() + 1"
+            hists.append([{"entry": "run", "style": "none", "inject": False, "code": code, "term": ["N"],
+                           "shape": "defs"}, op])
     # programs that import a second student file (Sandbox._import inside _execute)
     pinned = []
     for style in STYLES:
